@@ -29,10 +29,10 @@ its default.  Finding key = "<kind of the blamed node>/<its remaining non-defaul
 "~<kind>.<option>" for options remaining below it), e.g. "table/leading"; an exception escaping
 render is "crash/<Type>/<file>:<function>".
 
-Measured (default 16 workers, machine shared with other agents, load average 20-60; CPU time is the figure):
-    quick     59.6 k trees, 554 230 renders, 131 outcome signatures (78 non-trivial), ~590-650 CPU-s
-              (37-41 s on 16 free cores; 57-76 s wall observed under load)
-    thorough  493 k trees, 4 871 369 renders, 147 signatures (80 non-trivial), ~6 100 CPU-s (688 s wall under load)
+Measured (default 16 workers):
+    quick     60.3 k trees (incl. WT 672, SH 68 x 5 modes), 568 256 evaluations, 202 outcome signatures
+              (134 non-trivial), ~570 CPU-s, 45 s wall on the nearly idle machine (57-76 s under load)
+    thorough  493 k trees + WT 1 570 + SH, ~4.9 M renders, ~6 100 CPU-s (688 s wall under load, before WT / SH)
 """
 import os
 import traceback
@@ -266,7 +266,7 @@ def _run_events(d, events, W, shared):
 
 
 def check_shared_case(d, W, mode, res):
-    slot = gen.share_slot(d)
+    slot = gen.share_slot(d).split("+")[0]
     case = {"tree": d, "W": W, "console": "utf8", "mode": mode}
     events = SHARED_MODES[mode]
     try:
